@@ -1,6 +1,247 @@
-From Coq Require Import String List Bool Arith.
+(* C17 - Derivative atoms have a canonical identity: naming and order bookkeeping.
+   Property theorems only: each is closed by [exact] of a lemma of Proofs/NamesP.v and followed by
+   Print Assumptions.  The model (Model/NamesM.v) follows SymbolicExpr.eval, find_partial_derivatives,
+   get_index_*_atom and get_max_*partial_derivatives arm by arm; where the full statement is false of the
+   faithful model there is a [_refuted] theorem with a witness (confirmed on the real code by the check) next
+   to the version with the minimal explicit guard. *)
+From Coq Require Import String List Bool Arith Permutation.
 From V Require Import Model.NamesM Proofs.NamesP.
 Import ListNotations.
+Open Scope string_scope.
+
+(* ---------------------------------------------------------------- naming *)
+(* Two chains (of any length, over scalar functions or vector components, physical or logical) get the same
+   symbol exactly when component and multi-index coincide.  Guards: function names do not contain the
+   separator '_' (hygiene) and a chain does not mix physical with logical operators (pure). *)
+Theorem C17_same_symbol_iff : forall ops1 a1 ops2 a2,
+  nosep (fname a1) -> nosep (fname a2) -> pure ops1 = true -> pure ops2 = true ->
+  (symbolic (Chain ops1 a1) = symbolic (Chain ops2 a2) <-> a1 = a2 /\ multi_index ops1 = multi_index ops2).
+Proof. exact same_symbol_iff. Qed.
+Print Assumptions C17_same_symbol_iff.
+
+Theorem C17_sym_name_iff : forall ops1 a1 ops2 a2,
+  nosep (fname a1) -> nosep (fname a2) -> pure ops1 = true -> pure ops2 = true ->
+  (chain_name ops1 a1 = chain_name ops2 a2 <-> a1 = a2 /\ multi_index ops1 = multi_index ops2).
+Proof. exact sym_name_iff. Qed.
+Print Assumptions C17_sym_name_iff.
+
+(* the same under a sharper, pairwise hygiene that admits names like u_h: neither function name is the other one
+   followed by '_' and more (ext n m := exists t, n = m ++ "_" ++ t) *)
+Theorem C17_sym_name_iff_family : forall ops1 a1 ops2 a2,
+  ~ ext (fname a1) (fname a2) -> ~ ext (fname a2) (fname a1) -> pure ops1 = true -> pure ops2 = true ->
+  (chain_name ops1 a1 = chain_name ops2 a2 <-> a1 = a2 /\ multi_index ops1 = multi_index ops2).
+Proof. exact sym_name_iff_family. Qed.
+Print Assumptions C17_sym_name_iff_family.
+
+(* the symbol is the canonical spelling of the identity: base name, component index, sorted code *)
+Theorem C17_name_is_canonical : forall ops a,
+  pure ops = true -> chain_name ops a = spec_name a (multi_index ops).
+Proof. exact chain_name_pure. Qed.
+Print Assumptions C17_name_is_canonical.
+
+(* whatever the order of differentiation (no hygiene needed) *)
+Theorem C17_order_of_differentiation : forall ops1 ops2 a,
+  Permutation ops1 ops2 -> pure ops1 = true -> chain_name ops1 a = chain_name ops2 a.
+Proof. exact sym_name_perm. Qed.
+Print Assumptions C17_order_of_differentiation.
+
+(* without hygiene: dx(u) and the function literally named u_x *)
+Theorem C17_name_collision_refuted :
+  exists ops1 a1 ops2 a2, pure ops1 = true /\ pure ops2 = true /\
+    chain_name ops1 a1 = chain_name ops2 a2 /\ ~ (a1 = a2 /\ multi_index ops1 = multi_index ops2).
+Proof. exact name_collision_refuted. Qed.
+Print Assumptions C17_name_collision_refuted.
+
+(* without hygiene: the component w[0] and the function named w_0 *)
+Theorem C17_component_collision_refuted :
+  exists a1 a2, a1 <> a2 /\ chain_name [] a1 = chain_name [] a2.
+Proof. exact component_collision_refuted. Qed.
+Print Assumptions C17_component_collision_refuted.
+
+(* mixed physical-of-logical chains: the outer code is dropped, dx(dx1(u)) and dx1(u) share a symbol ... *)
+Theorem C17_mixed_chain_refuted :
+  exists ops1 ops2 a, nosep (fname a) /\
+    chain_name ops1 a = chain_name ops2 a /\ multi_index ops1 <> multi_index ops2.
+Proof. exact mixed_chain_refuted. Qed.
+Print Assumptions C17_mixed_chain_refuted.
+
+(* ... and the order of differentiation matters for them: dx(dx1(u)) vs dx1(dx(u)) *)
+Theorem C17_mixed_order_refuted :
+  exists ops1 ops2 a, nosep (fname a) /\ Permutation ops1 ops2 /\ chain_name ops1 a <> chain_name ops2 a.
+Proof. exact mixed_order_refuted. Qed.
+Print Assumptions C17_mixed_order_refuted.
+
+(* ---------------------------------------------------------------- SymbolicExpr commutes with + * ^ functions, tuples, matrices *)
 Theorem C17_symbolic_add : forall l, symbolic (Add l) = Add (map symbolic l).
 Proof. exact symbolic_add. Qed.
 Print Assumptions C17_symbolic_add.
+
+Theorem C17_symbolic_mul : forall l, symbolic (Mul l) = Mul (map symbolic l).
+Proof. exact symbolic_mul. Qed.
+Print Assumptions C17_symbolic_mul.
+
+Theorem C17_symbolic_pow_partial : forall b x,
+  plainb x = true -> symbolic (Pow b x) = Pow (symbolic b) (symbolic x).
+Proof. exact symbolic_pow_const. Qed.
+Print Assumptions C17_symbolic_pow_partial.
+
+Theorem C17_symbolic_function : forall f l, symbolic (Fn f l) = Fn f (map symbolic l).
+Proof. exact symbolic_fn. Qed.
+Print Assumptions C17_symbolic_function.
+
+Theorem C17_symbolic_tuple : forall l,
+  symbolic (Tup l) = Tup (map symbolic l) /\ symbolic (Seq l) = Tup (map symbolic l).
+Proof. exact symbolic_tuple. Qed.
+Print Assumptions C17_symbolic_tuple.
+
+Theorem C17_symbolic_matrix : forall imm rows, symbolic (Mat imm rows) = Mat imm (map (map symbolic) rows).
+Proof. exact symbolic_matrix. Qed.
+Print Assumptions C17_symbolic_matrix.
+
+(* altogether: SymbolicExpr is the homomorphic extension of chain -> symbol, and nothing terminal is left,
+   provided no exponent contains a terminal expression *)
+Theorem C17_symbolic_is_substitution_partial : forall e,
+  exps_plain e = true -> symbolic e = subst chain_name e /\ plainb (symbolic e) = true.
+Proof. intros e H. split; [exact (symbolic_is_subst e H)|exact (symbolic_plain e H)]. Qed.
+Print Assumptions C17_symbolic_is_substitution_partial.
+
+(* the exponent is passed through: SymbolicExpr(2**dx(u)) = 2**dx(u) *)
+Theorem C17_symbolic_pow_refuted :
+  exists b x, symbolic (Pow b x) <> Pow (symbolic b) (symbolic x) /\ plainb (symbolic (Pow b x)) = false.
+Proof. exact symbolic_pow_refuted. Qed.
+Print Assumptions C17_symbolic_pow_refuted.
+
+(* ---------------------------------------------------------------- maximal orders *)
+(* never more than the true maximum: every kernel, every query (F = None, a function, a component, a vector) *)
+Theorem C17_max_physical_never_more : forall e q t d,
+  get_max_phys e q = Some t -> is_phys d = true -> proj_of d t <= true_max d e q.
+Proof. exact max_phys_le_true. Qed.
+Print Assumptions C17_max_physical_never_more.
+
+Theorem C17_max_logical_never_more : forall e q t d,
+  get_max_log e q = Some t -> is_log d = true -> proj_of d t <= true_max d e q.
+Proof. exact max_log_le_true. Qed.
+Print Assumptions C17_max_logical_never_more.
+
+(* equal to the true maximum over ALL chains of the kernel - on the fragment the traversal enters
+   (Add / Mul / Pow base / Tuple / list), for pure chains, overall or for one scalar function / component *)
+Theorem C17_max_physical_exact_partial : forall e q t d,
+  entered e = true -> pure_chains e = true -> novec q ->
+  get_max_phys e q = Some t -> is_phys d = true -> proj_of d t = true_max d e q.
+Proof. exact max_phys_exact. Qed.
+Print Assumptions C17_max_physical_exact_partial.
+
+Theorem C17_max_logical_exact_partial : forall e q t d,
+  entered e = true -> pure_chains e = true -> novec q ->
+  get_max_log e q = Some t -> is_log d = true -> proj_of d t = true_max d e q.
+Proof. exact max_log_exact. Qed.
+Print Assumptions C17_max_logical_exact_partial.
+
+(* on that fragment the traversal returns exactly the chains of the kernel *)
+Theorem C17_find_exact_partial : forall e c,
+  entered e = true -> (In c (find_pd e) <-> In c (chains_of e)).
+Proof. intros e c H. split; [apply find_pd_sub|apply find_pd_complete; exact H]. Qed.
+Print Assumptions C17_find_exact_partial.
+
+(* a report is refused (AttributeError) only for a python list / tuple without F *)
+Theorem C17_max_refused_iff : forall e q,
+  (get_max_phys e q = None <-> q = None /\ is_pyseq e = true) /\
+  (get_max_log e q = None <-> q = None /\ is_pyseq e = true).
+Proof. exact max_refused_iff. Qed.
+Print Assumptions C17_max_refused_iff.
+
+(* what the traversal misses: each guard of the exactness theorem is necessary *)
+Theorem C17_max_matrix_refuted :
+  exists e, get_max_phys e None = Some (0, 0, 0) /\ true_max Dx e None = 1 /\ pure_chains e = true.
+Proof. exact max_matrix_refuted. Qed.
+Print Assumptions C17_max_matrix_refuted.
+
+Theorem C17_max_function_refuted :
+  exists e, get_max_phys e None = Some (0, 0, 0) /\ true_max Dx e None = 1 /\ pure_chains e = true.
+Proof. exact max_function_refuted. Qed.
+Print Assumptions C17_max_function_refuted.
+
+Theorem C17_max_exponent_refuted :
+  exists e, get_max_phys e None = Some (0, 0, 0) /\ true_max Dx e None = 1 /\ pure_chains e = true.
+Proof. exact max_exponent_refuted. Qed.
+Print Assumptions C17_max_exponent_refuted.
+
+Theorem C17_max_mixed_refuted :
+  exists e, entered e = true /\
+    get_max_phys e None = Some (0, 0, 0) /\ true_max Dx e None = 1 /\
+    get_max_log e None = Some (0, 0, 0) /\ true_max D1 e None = 1.
+Proof. exact max_mixed_refuted. Qed.
+Print Assumptions C17_max_mixed_refuted.
+
+Theorem C17_max_vector_query_refuted :
+  exists e q, entered e = true /\ pure_chains e = true /\
+    get_max_phys e (Some q) = Some (0, 0, 0) /\ true_max Dx e (Some q) = 1.
+Proof. exact max_vector_query_refuted. Qed.
+Print Assumptions C17_max_vector_query_refuted.
+
+(* ---------------------------------------------------------------- the proposed repairs (flags of the model) *)
+(* the flagged functions with all flags false are the functions of the current code, so everything above is about
+   what the case files evaluate *)
+Theorem C17_current_code_is_all_flags_false : forall e q,
+  symbolic_g false e = symbolic e /\ find_pd_g false e = find_pd e /\
+  get_max_phys_g false false e q = get_max_phys e q /\ get_max_log_g false false e q = get_max_log e q.
+Proof. exact current_code_is_all_flags_false. Qed.
+Print Assumptions C17_current_code_is_all_flags_false.
+
+(* with the exponent translated: the homomorphic extension for every kernel, nothing terminal left *)
+Theorem C17_repaired_symbolic_is_substitution : forall e,
+  symbolic_g true e = subst chain_name e /\ plainb (symbolic_g true e) = true.
+Proof. intros e. split; [exact (symbolic_g_true_is_subst e)|exact (symbolic_g_true_plain e)]. Qed.
+Print Assumptions C17_repaired_symbolic_is_substitution.
+
+(* with every sub-expression entered and VectorFunction queries: equal to the true maximum for EVERY kernel
+   (matrices, functions, exponents) and every query; the remaining guard is pure chains *)
+Theorem C17_repaired_max_physical_exact : forall e q t d,
+  pure_chains e = true -> get_max_phys_g true true e q = Some t -> is_phys d = true ->
+  proj_of d t = true_max d e q.
+Proof. exact max_phys_g_exact. Qed.
+Print Assumptions C17_repaired_max_physical_exact.
+
+Theorem C17_repaired_max_logical_exact : forall e q t d,
+  pure_chains e = true -> get_max_log_g true true e q = Some t -> is_log d = true ->
+  proj_of d t = true_max d e q.
+Proof. exact max_log_g_exact. Qed.
+Print Assumptions C17_repaired_max_logical_exact.
+
+(* never more than the truth, whichever repairs are applied *)
+Theorem C17_any_variant_never_more : forall ea vq e q t d,
+  (get_max_phys_g ea vq e q = Some t -> is_phys d = true -> proj_of d t <= true_max d e q) /\
+  (get_max_log_g ea vq e q = Some t -> is_log d = true -> proj_of d t <= true_max d e q).
+Proof. intros. split; [apply max_phys_g_le_true|apply max_log_g_le_true]. Qed.
+Print Assumptions C17_any_variant_never_more.
+
+(* ---------------------------------------------------------------- non-vacuity *)
+(* hygienic names and pure chains exist, the identity is visible in the name, and the theorems fire *)
+Example C17_nonvacuous_names :
+  let w1 := FComp "w" 1 in
+  nosep (fname w1) /\ nosep (fname (FScal "phi")) /\
+  pure [Dy; Dx; Dz; Dx] = true /\ pure [D3; D1; D3] = true /\
+  chain_name [Dy; Dx; Dz; Dx] w1 = "w_1_xxyz" /\ chain_name [Dx; Dx; Dy; Dz] w1 = "w_1_xxyz" /\
+  chain_name [D3; D1; D3] (FScal "phi") = "phi_x1x3x3" /\ chain_name [] w1 = "w_1" /\
+  chain_name [Dx; Dx; Dy; Dy] w1 <> chain_name [Dy; Dx; Dz; Dx] w1.
+Proof. repeat split; try reflexivity. discriminate. Qed.
+
+Example C17_nonvacuous_family :
+  ~ ext "u_h" "v_h" /\ ~ ext "v_h" "u_h" /\ ~ nosep "u_h" /\ ext "u_x" "u" /\
+  chain_name [Dx] (FScal "u_h") = "u_h_x" /\ chain_name [] (FComp "B_h" 2) = "B_h_2".
+Proof.
+  repeat split; try (intros [t E]; discriminate E); try discriminate.
+  exists "x". reflexivity.
+Qed.
+
+(* a kernel of the entered fragment with pure chains: the exactness theorem applies and is not trivial *)
+Example C17_nonvacuous_orders :
+  let k := Add [Mul [Sym "alpha"; Chain [Dx; Dx] (FScal "u")];
+                Pow (Chain [Dy; Dx] (FComp "w" 0)) (Num "2");
+                Tup [Chain [D2; D2; D2] (FScal "u")]] in
+  entered k = true /\ pure_chains k = true /\ exps_plain k = true /\
+  get_max_phys k None = Some (2, 1, 0) /\ get_max_log k None = Some (0, 3, 0) /\
+  get_max_phys k (Some (QAtom (FComp "w" 0))) = Some (1, 1, 0) /\
+  true_max Dx k None = 2 /\ true_max D2 k (Some (QAtom (FScal "u"))) = 3 /\
+  symbolic k = Add [Mul [Sym "alpha"; Sym "u_xx"]; Pow (Sym "w_0_xy") (Num "2"); Tup [Sym "u_x2x2x2"]].
+Proof. repeat split. Qed.
